@@ -10,6 +10,10 @@ HEADER_IMPORTS = ('From Coq Require Import List ZArith. Import ListNotations.\n'
                   'From LV Require Import Core.Syntax Core.Eval Core.Check.\n')
 
 
+ENGINE_LIMITS = ('parser stack overflow', 'Expression tree is too large', 'too many terms in compound SELECT',
+                 'too many FROM clause terms', 'too many columns', 'string or blob too big')
+
+
 def run_impl(text, prog, preds=None, max_rows=120, rename=None):
   """{pred: ('ok', header, rows) | (class, message)} for the table predicates of prog."""
   out = {}
@@ -27,6 +31,10 @@ def run_impl(text, prog, preds=None, max_rows=120, rename=None):
     st, a, b = logica_run.run_pred(text, (rename or {}).get(d['name'], d['name']), decode=False, rules=rules,
                                    time_limit=15.0)
     if st == 'Timeout':
+      out[d['name']] = ('big', a)
+      continue
+    if st == 'SqlError' and any(m in str(a) for m in ENGINE_LIMITS):
+      # a resource limit of SQLite (deeply inlined plans), like a time-out: says nothing about the rows
       out[d['name']] = ('big', a)
       continue
     if st == 'ok' and len(b) > max_rows:
